@@ -1,7 +1,7 @@
 use crate::{
-    cfg::Cfg,
-    parser::InstructionProperties,
-    passes::{DiagnosticBuilder, DiagnosticLocation, DiagnosticManager, LintError, LintPass},
+    cfg::{Cfg, CfgNode},
+    parser::{HasIdentity, InstructionProperties},
+    passes::{DiagnosticBuilder, DiagnosticManager, LintError, LintPass},
 };
 use std::rc::Rc;
 
@@ -19,11 +19,12 @@ impl LintPass for ControlFlowCheck {
                 // If the previous nodes set is not empty
                 // Note: this also accounts for functions being at the beginning
                 // of a program, as the ProgEntry node will be the previous node
-                // (sorted: the sets are hash-ordered)
+                // (in program order: the sets are hash-ordered)
+                let order = |n: &Rc<CfgNode>| cfg.iter().position(|o| o.id() == n.id());
                 let mut prevs = node.prevs().iter().cloned().collect::<Vec<_>>();
-                prevs.sort_by_key(|p| p.range());
+                prevs.sort_by_cached_key(&order);
                 let mut functions = node.functions().iter().cloned().collect::<Vec<_>>();
-                functions.sort_by_key(|f| f.name());
+                functions.sort_by_cached_key(|f| order(&f.entry()));
                 for prev_node in &prevs {
                     for function in &functions {
                         if prev_node.is_program_entry() {
